@@ -89,6 +89,7 @@ type Output struct {
 }
 
 type SamplePath struct {
+	Case   int                    `json:"case"`
 	Trace  []Choice               `json:"trace"`
 	Inputs map[string]interface{} `json:"inputs"`
 	Obs    []string               `json:"obs"`
@@ -114,7 +115,7 @@ func main() {
 		dumpFn    = flag.String("dump", "", "dump SSA of function and exit")
 		emitOv    = flag.String("emit-overlay", "", "write scaled source files into this directory, print go-overlay json, exit")
 	)
-	flag.IntVar(&caseIndex, "case", 0, "case index (vCase)")
+	caseList := flag.String("case", "0", "case index (vCase), or comma-separated list run sequentially")
 	flag.BoolVar(&verbose, "v", false, "verbose")
 	flag.BoolVar(&traceExec, "trace", false, "trace instructions")
 	flag.IntVar(&unwindCap, "unwind", 70, "loop unwinding cap")
@@ -243,6 +244,19 @@ func main() {
 		crossCheck = crossSolver
 	}
 
+	budget := ""
+	var samples []SamplePath
+	var caseNums []int
+	for _, c := range strings.Split(*caseList, ",") {
+		var n int
+		fmt.Sscanf(c, "%d", &n)
+		caseNums = append(caseNums, n)
+	}
+	for _, cn := range caseNums {
+	caseIndex = cn
+	if pinned != nil {
+		pinned.next = 0
+	}
 	// initial state: run package initialisers of own packages, then the harness.
 	st := newState()
 	main := &Thread{id: 0, name: "main"}
@@ -258,24 +272,22 @@ func main() {
 			}
 		}
 	}
-	// also dependencies inside the module (internal/errors etc.) are reached through the init chains.
 	for i := len(inits) - 1; i >= 0; i-- {
 		f := inits[i]
 		fi := infoOf(f)
 		main.frames = append(main.frames, &Frame{fn: f, info: fi, regs: make([]Value, fi.n), block: f.Blocks[0], ret: retDiscard})
 	}
 	pushState(st)
-
-	budget := ""
-	var samples []SamplePath
+	nsamp := 0
 	for len(worklist) > 0 {
 		s := worklist[len(worklist)-1]
 		worklist = worklist[:len(worklist)-1]
 		runState(s)
 		if s.finished && !s.dead {
 			stats.pathsDone++
-			if len(samples) < 3 || (len(samples) < 6 && stats.pathsDone%97 == 0) {
-				sp := SamplePath{Trace: s.trace, Obs: s.obs, PCLen: len(s.pc)}
+			if nsamp < 2 && len(samples) < 8 {
+				nsamp++
+				sp := SamplePath{Case: cn, Trace: s.trace, Obs: s.obs, PCLen: len(s.pc)}
 				if m := s.currentModel(); m != nil {
 					sp.Inputs = s.inputsUnder(m)
 				}
@@ -296,6 +308,11 @@ func main() {
 			budget = fmt.Sprintf("wall budget %ds exhausted with %d states pending", *maxSec, len(worklist))
 			break
 		}
+	}
+	worklist = nil
+	if budget != "" {
+		break
+	}
 	}
 
 	o := Output{Harness: *harness, Case: caseIndex, Scale: *scale, Paths: stats.pathsDone, PathsDead: stats.pathsDead, States: stats.statesCreated,
